@@ -1099,6 +1099,8 @@ C09_SETUP = ["init",
              "fs put %s %s" % (hx(b"top_bad.cfg"), hx(b"a = 1;\n@include \"inc_bad.cfg\"\nb = 2;\n")),
              "fs put %s %s" % (hx(b"top_ok.cfg"), hx(b"a = 1;\n@include \"inc_ok.cfg\"\nb = 2;\n")),
              "fs put %s %s" % (hx(b"top_missing.cfg"), hx(b"a = 1;\n\n\n@include \"nosuch.cfg\"\n")),
+             "fs put %s %s" % (hx(b"inc_long.cfg"), hx(b"l1 = 1;\nl2 = 2;\nl3 = 3;\nl4 = 4;\nl5 = 5;\nl6 = 6;\n")),
+             "fs put %s %s" % (hx(b"inc_bad2.cfg"), hx(b"q = 1;\nr = [1,\n  2.5];\n")),
              "fs dir %s" % hx(b"adir")]
 C09_ALPHABET = [
     "reads %s" % hx(b"a=1;"),
@@ -1115,6 +1117,8 @@ C09_ALPHABET = [
     "writef %s" % hx(b"out.cfg"),
     "wdev -1 0 1 0\nwritef %s\nwdev -1 0 0 0" % hx(b"out2.cfg"),
     "writef %s" % hx(b"nodir/out.cfg"),
+    # an include function that returns two files; the error is in the second one, on its line 3
+    "incfn multi %s,%s\nreads %s\nincfn default" % (hx(b"inc_long.cfg"), hx(b"inc_bad2.cfg"), hx(b"\n@include \"z\"\n")),
 ]
 
 
@@ -1161,15 +1165,24 @@ def run_c09(ctx):
 
     def oracle(script, rec):
         bad = died(script, rec)
+        sizes = {}
+        for l in script.splitlines():
+            f = l.split(" ")
+            if f[:2] == ["fs", "put"] and len(f) == 4:
+                sizes[f[2]] = unhx(f[3]).count(b"\n") + 1
         for op, e in e_after(script, rec["impl"]):
+            ef = e.split(" ") if e else []
+            if len(ef) == 5 and ef[3] in sizes and int(ef[4]) > sizes[ef[3]]:
+                bad.append("after '%s' the error names file %s, which has %d lines, at line %s" % (
+                    op.replace("\n", "; "), unhx(ef[3]), sizes[ef[3]], ef[4]))
             if op in solo and e != solo[op]:
                 bad.append("after '%s' the error fields are %s; the same call on a fresh configuration reports %s" % (
                     op.replace("\n", "; "), e, solo[op]))
         return bad
     res.rule = ("every history of length %d over %d calls on one configuration object (ok reads from string/stream/file "
                 "with include; syntax error, duplicate, mismatched element at different lines; error inside an included "
-                "file; missing include; missing file; directory; ok write; write whose close fails; "
-                "write into a missing directory), the four error fields compared with the model after every call and, "
+                "file; error in the second file of a multi-file include; missing include; missing file; directory; ok "
+                "write; write whose close fails; write into a missing directory), the four error fields compared with the model after every call and, "
                 "model-free, with the report of the same call on a fresh object" % (depth, len(C09_ALPHABET)))
     res.distinct = distinct_count(cases)
     res.distribution["ops"] = summarize_ops(cases)
@@ -1592,6 +1605,9 @@ def c15_body(glob, thr):
             body += ["reads %s" % hx(t), "locq", "dump", "write", "locq", "readst %s" % hx(t), "locq", "dump"]
         body += ["readf %s" % hx(b"locfile.cfg"), "locq", "dump", "writef %s" % hx(b"locout.cfg"), "locq",
                  "fs cat %s" % hx(b"locout.cfg"), "reads %s" % hx(b"x = ;"), "locq", "readf %s" % hx(b"nosuch"), "locq"]
+        # re-entrant use: the include function itself reads and writes another configuration
+        body += ["incfn nested", "reads %s" % hx(b"n = 0.5;\n@include \"locinc.cfg\"\nm = 2.25;\n"), "locq", "dump", "write", "locq",
+                 "reads %s" % hx(b"@include \"locinc.cfg\"\nbad = ;\n"), "locq", "incfn default"]
     return "\n".join(body) + "\n"
 
 
@@ -1634,7 +1650,8 @@ def run_c15(ctx):
             bad.append("result differs from the C-locale result: C locale %s, here %s" % (d[1][:120], d[2][:120]))
         return bad
     res.rule = ("process-wide locale {C, comma-decimal, C.utf8} x thread locale {none, comma-decimal, C.utf8 object} x "
-                "{read_string, read(stream), read_file with include, write, write_file} x scientific notation off/on over "
+                "{read_string, read(stream), read_file with include, write, write_file, a read whose include function itself "
+                "reads and writes another configuration} x scientific notation off/on over "
                 "float-bearing configurations and failing reads; after every call: uselocale(0) identity, "
                 "setlocale(LC_NUMERIC, NULL), the caller's printf radix; all values and texts compared with the model and, "
                 "model-free, with the C-locale run")
@@ -1748,6 +1765,55 @@ def run_c13(ctx):
                     "# replay: DRV_FAULT_K=%d DRV_FAULT_K2=%d <fault build> <this script>\n%s#--- FATAL lines: %s\n" % (
                         name, k1, k2, rc, k1, k2, script, fat))))
                 break
+    # ---- the C++ binding: every failing allocation inside a Config/Setting call must surface as std::bad_alloc
+    #      (Config installs a fatal-error function that throws), never as a crash or std::terminate ----
+    if not ctx.replay and not res.violations:
+        cexe = ctx.harness("cxxfault")
+        cscript = "\n".join([
+            "init", "xinit", "xadd . h61 1", "xset i 0 5", "xadd . h67 6", "xadd 1 h73 4", "xset s 1/0 h68656c6c6f",
+            "xadd . h6c 8", "xadd 2 - 3", "xadd 2 - 4", "xmlook s 1 h73", "xlook i h61", "xiter .", "xpath 1/0",
+            "xreads %s" % hx(b"a = 1;\nb = { c = [1, 2]; d = \"x\"; };\n"), "xlook i %s" % hx(b"b.c.[1]"),
+            "xreads %s" % hx(b"a = ;"), "xclear", "xadd . h62 2", "xrm . h62", "xadd . h71 7", "xadd 0 - 5", "xrmi 0 0",
+            "xwritef %s" % hx(b"out.cfg"), "xreadf %s" % hx(b"out.cfg"), "xclear", "destroy"]) + "\n"
+
+        def run_cxx(k):
+            wd = runner.workdir()
+            sf = os.path.join(wd, ".script")
+            open(sf, "w").write(cscript)
+            env = dict(os.environ)
+            env.pop("DRV_FAULT_K", None)
+            env.pop("DRV_FAULT_K2", None)
+            if k:
+                env["DRV_FAULT_K"] = str(k)
+            try:
+                p = subprocess.run([cexe, sf, wd], stdout=subprocess.PIPE, stderr=subprocess.PIPE, timeout=60, env=env)
+                rc, outp, errp = p.returncode, p.stdout.decode("latin-1"), p.stderr.decode("latin-1", "replace")
+            except subprocess.TimeoutExpired:
+                rc, outp, errp = "HANG", "", ""
+            _sh.rmtree(wd, ignore_errors=True)
+            return rc, outp.splitlines(), errp
+        rc, base, _ = run_cxx(None)
+        counts = [int(l.split(" ")[1]) for l in base if l.startswith("N ")]
+        if rc != 0 or len(counts) < 3:
+            res.corr_broken.append("C++ fault scenario: fault-free run failed rc=%s" % rc)
+        else:
+            first = counts[1] + 1          # allocations after Config::Config (init, xinit)
+            last = counts[-1]
+            ks = list(range(first, last + 1))
+            stats["cxx"] = {"allocations": last, "faults_injected": len(ks)}
+            for k in ks:
+                rc, out, err = run_cxx(k)
+                total += 1
+                thr = [l for l in out if l == "R throw bad_alloc"]
+                if not (rc == 0 and len(thr) == 1 and out[-1] == "R throw bad_alloc"):
+                    what = ("the process died (status %s: %s)" % (rc, " ".join(err.split()[:12]))) if rc != 0 else \
+                           "the call returned without std::bad_alloc"
+                    res.violations.append(dict(name="cxxfault_%d" % k, replay=(
+                        "# property C13 -- C++ binding: allocation #%d made to fail inside a Config/Setting call: %s\n"
+                        "# replay: DRV_FAULT_K=%d <cxxfault build of harness/drv.c + drvxx.cc> <this script>\n%s#--- transcript tail:\n#%s\n" % (
+                            k, what, k, cscript, "\n#".join(out[-5:])))))
+                    if len(res.violations) >= 3:
+                        break
     # known finding F19: unchecked strdup in the C++ exception classes (identified by census rows)
     import re as _re
     cen = open(os.path.join(COQ, "gen", "Census.v")).read()
@@ -1773,7 +1839,9 @@ def run_c13(ctx):
                 "removals, write / write_file / clear, 120-level nesting) the library's own allocation requests are counted "
                 "(compile-time redirection of malloc/calloc/realloc/strdup in lib/*.c only) and each k-th one is made to "
                 "return NULL in a child process: the registered fatal-error function must run at exactly that request; "
-                "plus pairs of failures with a handler that recovers by longjmp")
+                "plus pairs of failures with a handler that recovers by longjmp; and through the C++ binding (variant cxxfault): "
+                "each allocation of a scenario of Config/Setting calls (add, assign, lookup, iterate, readString ok and "
+                "failing, clear, remove, writeFile, readFile) made to fail must surface as std::bad_alloc from that call")
     res.samples = ["\n".join(scs[next(iter(scs))])[:400]]
     return res
 
@@ -2132,6 +2200,9 @@ def run_c20(ctx):
                 t = t + b" " * (pad - len(t)) + lead + tok + b";\nafter = 1;\n"
                 assert t[8192 - k - len(lead):8192 - k] == lead
                 texts.append(t)
+        # inputs that END (no newline, no terminator) inside such a token: the end-of-input path of the buffer refill
+        for tok in backup + [b"0x", b"2.5E", b"1e+", b"\"open", b"/* open", b"tru", b"12L", b"a"]:
+            texts.append(b"pre = 1;\nzz = " + tok)
         # single tokens longer than the scanner's read buffer (YY_BUF_SIZE 16384): the buffer has to grow
         longs = [16382, 16383, 16384, 16385, 20000, 33000] if ctx.tier == "quick" else \
                 [16380 + i for i in range(10)] + [20000, 32766, 32767, 32768, 32769, 50000, 70000]
